@@ -235,6 +235,12 @@ func (g *gen) echo(shadowed []string) *ref.V {
 	return g.mark(form("+", n, g.lit()))
 }
 
+// freshName: a name no visible variable has.
+func (g *gen) freshName() string {
+	g.ncap++
+	return fmt.Sprintf("c%d", g.ncap)
+}
+
 func (g *gen) push(name string, t typ, capt, ro bool) {
 	g.vars = append(g.vars, gvar{name: name, t: t, capt: capt, ro: ro, level: g.level})
 }
@@ -1022,6 +1028,7 @@ func (g *gen) letForm(kind string, t typ, d int) *ref.V {
 	}
 	var pending []nb
 	var shadowed []string
+	sawFn := false
 	for i := 0; i < n; i++ {
 		var av map[string]bool
 		if kind == "let" {
@@ -1033,6 +1040,11 @@ func (g *gen) letForm(kind string, t typ, d int) *ref.V {
 			if rn, ok := g.reuseName(avoid); ok {
 				nm, c, reused = rn, g.shadow, true
 			}
+		}
+		if kind == "let*" && sawFn && !g.ok("sequential-binding-later-variable") {
+			// open finding: a closure made by an earlier init form must not
+			// be able to name this variable - take a name not yet in use
+			nm, c, reused = g.freshName(), g.shadow, false
 		}
 		avoid[nm] = true
 		var bt typ
@@ -1068,6 +1080,9 @@ func (g *gen) letForm(kind string, t typ, d int) *ref.V {
 			b = list(sym(nm), g.sub(kind, "init", bt, d))
 		}
 		binds = append(binds, b)
+		if bt == tF1 || bt == tF2 || strings.Contains(b.String(), "(lambda") || strings.Contains(b.String(), "(uf") {
+			sawFn = true
+		}
 		if reused {
 			shadowed = append(shadowed, nm)
 		}
@@ -1357,6 +1372,7 @@ func (g *gen) doForm(kind string, t typ, d int) *ref.V {
 	mark := len(g.vars)
 	defer func() { g.vars = g.vars[:mark] }()
 	i, _ := g.newName(nil)
+	sawFn := false
 	var shadowed []string
 	if g.chance(0.4) {
 		if rn, ok := g.reuseName(nil); ok {
@@ -1392,6 +1408,9 @@ func (g *gen) doForm(kind string, t typ, d int) *ref.V {
 				nm, reused = rn, true
 			}
 		}
+		if kind == "do*" && sawFn && !g.ok("sequential-binding-later-variable") {
+			nm, reused = g.freshName(), false
+		}
 		avoid[nm] = true
 		bt := tI
 		if !reused && g.chance(0.25) {
@@ -1407,6 +1426,9 @@ func (g *gen) doForm(kind string, t typ, d int) *ref.V {
 		}
 		if reused {
 			shadowed = append(shadowed, nm)
+		}
+		if strings.Contains(init.String(), "(lambda") || strings.Contains(init.String(), "(uf") {
+			sawFn = true
 		}
 		if g.chance(0.2) {
 			specs = append(specs, list(sym(nm), init))
@@ -1638,6 +1660,14 @@ func (g *gen) snippet(note string) *ref.V {
 		return form(k, list(list(sym("z"), vals())), form("multiple-value-list", sym("z")))
 	case "mv-into:mapcar-result":
 		return form("mapcar", form("lambda", list(sym("w")), form("values", sym("w"), i())), form("list", i(), i()))
+	case "sequential-binding-later-variable":
+		k, f := g.pick(poolNames...), g.freshName()
+		lam := form("lambda", ref.Nil, g.bare(), sym(k))
+		if g.chance(0.5) {
+			return form("let", list(list(sym(k), i())), form("let*", list(list(sym(f), lam), list(sym(k), i())), form("list", form("funcall", sym(f)), sym(k))))
+		}
+		return form("let", list(list(sym(k), i())),
+			form("do*", list(list(sym(f), lam), list(sym(k), i()), list(sym("n"), num(0), form("1+", sym("n")))), list(form(">", sym("n"), num(0)), form("list", form("funcall", sym(f)), sym(k)))))
 	case "dynleak":
 		return g.closureForm(tA, d)
 	case "lambda-call-bare-free-variable":
